@@ -58,6 +58,8 @@ PROPS = {
     "C01": {"run": simple, "level": "exploration"},
     "C28": {"run": simple, "level": "exploration",
             "assumptions": ["'supported by the registry' is modelled by an own table over the 7 transfer syntax UIDs the generator uses (cross-checked against the registry at start; a mismatch makes the run inconclusive)"]},
+    "C29": {"run": simple, "level": "exploration",
+            "assumptions": ["requestor and acceptor run in one process over loopback TCP; timeouts (8 s per socket operation, 20 s per hand-shake) make a scenario inconclusive"]},
     "C26": {"run": c26, "level": "fault_enumeration",
             "assumptions": ["scaled-down writers (M < 1018) are reachable only through the cfg(dicom_rs_verif) constructor; every scaled-down witness is re-executed at M = 1018 before it counts"]},
 }
